@@ -65,6 +65,8 @@ type vpStore struct {
 	watchStopYield bool // Watcher.Stop() is a scheduling point
 	onExpire  func(owner string)  // harness monitor, called when the record is found to have lapsed
 	onWrite   func(by, op string) // harness monitor, called before a successful mutation is applied
+	symErrVal error
+	symErr    bool // injected failures carry an arbitrary (symbolic) error text instead of the dialect's time-out error
 	cut       bool // store unreachable: operations fail/hang according to the handle's fault config
 }
 
@@ -107,6 +109,12 @@ func (s *vpStore) errNotFound() error {
 	return nats.ErrKeyNotFound
 }
 func (s *vpStore) errUnreachable() error {
+	if s.symErr {
+		if s.symErrVal == nil {
+			s.symErrVal = errors.New(vpStr("neterr")) // whatever the client library's error says (one text per run)
+		}
+		return s.symErrVal
+	}
 	if s.dialect == vpDialectMock {
 		return errors.New("connection lost")
 	}
@@ -253,6 +261,7 @@ type vpKV struct {
 	hangLat   time.Duration // an unanswered request fails after this long
 	hangIsTimeout bool // an unanswered request fails after the client's 5s request time-out instead of hanging for ever
 	afterApply func(op string)
+	beforeIssue func(op string) // adversarial environment: acts right before this operation is issued
 	latMin    time.Duration // lower bound of the request latency (latMin == lat: concrete latency)
 	faultForce bool // inject faults[0] without asking the explorer
 	watchFailLeft int
@@ -268,6 +277,9 @@ func (k *vpKV) begin(op string) int {
 	}
 	if k.opLeft > 0 {
 		k.opLeft--
+	}
+	if k.beforeIssue != nil {
+		k.beforeIssue(op)
 	}
 	k.curStart = vpNow()
 	owner := ""
